@@ -153,7 +153,7 @@ func replayC08(c *Check, sc *core.Scenario) []core.Violation {
 }
 
 func init() {
-	Register(&Check{ID: "C08", Level: "exploration", Sim: "H", Runs: map[string]int{"quick": 30000, "thorough": 1000000},
+	Register(&Check{ID: "C08", Level: "exploration", Sim: "H", Runs: map[string]int{"quick": 30000, "thorough": 300000},
 		Rule: "histories of 2-6 calls (Execute, Execute cut by cancellation at a seeded event, Execute with an injected action/condition fault, FetchMatchingRules) on ONE instance, each with its own facts, schedule and cycle budget; every call is compared with the same call on an instance created at that moment (trace, return value, matched rules, final facts); distinct = hash of the calls' event logs; non-trivial = at least two calls were made",
 		Assumptions: []string{"the reference for each call is the engine itself on a new instance (differential), so a defect that affects new and reused instances alike is not this property's business",
 			"the same generator contract as Sim E (DESIGN.md 4.3)"},
@@ -637,12 +637,12 @@ var realVsStubH = map[string]string{
 }
 
 func init() {
-	Register(&Check{ID: "C16", Level: "exploration", Sim: "H", Runs: map[string]int{"quick": 24000, "thorough": 800000},
+	Register(&Check{ID: "C16", Level: "exploration", Sim: "H", Runs: map[string]int{"quick": 24000, "thorough": 250000},
 		Rule: "histories of 4-12 operations from {build 1-3 marker rules (fresh, alive or removed names), remove at library or blueprint level, instantiate + remove on the instance, store, load (same/other/new library, overwrite true/false)} over 1-3 knowledge bases; after EVERY operation every knowledge base of every library is instantiated, stored+loaded, fetched and executed on probe facts and compared with the model; distinct = hash of all probe results; non-trivial = the history removed an alive rule or built a duplicate name",
 		Assumptions: []string{"marker rules identify their text version by the value they write; where the statement is silent (fate of the other rules of a resource rejected for a duplicate) the model adopts what it observes and asserts only what the statement says"},
 		RealVsStub:  realVsStubH, Run: runLH, Replay: replayLH,
 		RequiredProbes: []string{"removed-alive-rule", "build.duplicate-name", "load.replaced-or-added", "load.overwrite-false-on-existing", "op.inst"}})
-	Register(&Check{ID: "C17", Level: "exploration", Sim: "H", Runs: map[string]int{"quick": 24000, "thorough": 800000},
+	Register(&Check{ID: "C17", Level: "exploration", Sim: "H", Runs: map[string]int{"quick": 24000, "thorough": 250000},
 		Rule: "the same histories, mixed with: valid documents printed with varied whitespace, comments, keyword case, literal notations and quoting (must be accepted with every rule's name, description and salience); documents invalid BY CONSTRUCTION in 16 classes (deleted keyword/brace/terminator, unbalanced bracket, illegal character, reserved word as name, empty condition/action list, salience or integer out of range, malformed escape, name twice) (must be rejected, syntactic classes with a GruleErrorReporter); resources whose reader fails; after every operation all knowledge bases are probed as in C16 (a rejected text must not damage what was loaded before); non-trivial = the history contains a rejected or reader-failed build",
 		Assumptions: []string{"acceptance exactness is decided on constructed classes only; an independent recogniser for arbitrary token mutants would be input testing and is outside this technique"},
 		RealVsStub:  realVsStubH, Run: runLH, Replay: replayLH,
